@@ -11,6 +11,7 @@ NEUTRALS = []
 
 # changes made by sub-agents that were given only the property text (see /verif/seeded/<id>/): each must stay reported
 SEEDED = [
+    {'name': 'seeded change C13-r6', 'seed': 'C13-r6', 'expect': '|RESTRIKE-eq|'},
     {'name': 'seeded change C13-r5b', 'seed': 'C13-r5b', 'expect': '|NA-lcm|'},
     {'name': 'seeded change C13-r5a', 'seed': 'C13-r5a', 'expect': '|ENSURE-whole|'},
     {'name': 'seeded change C13-r4b', 'seed': 'C13-r4b', 'expect': '|UNIT-pair|'},
